@@ -33,8 +33,9 @@ Definition texec (legacy : bool) (c : tcmd) (base : nat) (st : tstate) : tstate 
   | TPrint tag suffix line => print tag suffix (base + line)%nat
   | TEval tag line => print tag [] ((if legacy then base else base + eval_line_delta line) + 1)%nat
   | TTrap => ({| t_out := t_out st; t_status := 0; t_trap := true |}, FNormal)
-  | TStatus n => ({| t_out := t_out st; t_status := n; t_trap := t_trap st |}, FNormal)
-  | TExit n => ({| t_out := t_out st; t_status := n; t_trap := t_trap st |}, FExit)
+  (* exit statuses are bytes: [exit 300] leaves 44, [exit -1] leaves 255 (ExecutionExitCode::Custom(n as u8)) *)
+  | TStatus n => ({| t_out := t_out st; t_status := Z.modulo n 256; t_trap := t_trap st |}, FNormal)
+  | TExit n => ({| t_out := t_out st; t_status := Z.modulo n 256; t_trap := t_trap st |}, FExit)
   end.
 
 Definition ton_exit (st : tstate) : tstate :=
